@@ -184,7 +184,7 @@ impl Part for Udp {
     fn runs(&self, tier: Tier) -> u64 {
         match tier {
             Tier::Quick => 14_000,
-            Tier::Thorough => 1_200_000,
+            Tier::Thorough => 600_000,
         }
     }
     fn block(&self, _t: Tier) -> u64 {
@@ -500,7 +500,7 @@ impl Part for StreamPart {
     fn runs(&self, tier: Tier) -> u64 {
         match tier {
             Tier::Quick => 14_000,
-            Tier::Thorough => 1_200_000,
+            Tier::Thorough => 600_000,
         }
     }
     fn block(&self, _t: Tier) -> u64 {
